@@ -248,11 +248,25 @@ func verifOneRequest(p *Proxy, w *verifWorld, i int, op int, fixed int) {
 	var local, remote int
 	var noForward bool
 	leaderKnown := 0 // 0: address, 1: empty address, 2: error (with a non-empty address alongside)
-	if fixed < 0 {
+	full := verifTier() == 1
+	if fixed < 0 && full {
+		// thorough tier: the full product, including settings that must be irrelevant
 		local = verifChoice(verifName("local", i), verifNumLocal)
 		noForward = verifBool(verifName("noForward", i))
 		leaderKnown = verifChoice(verifName("leaderKnown", i), 3)
 		remote = verifChoice(verifName("remote", i), verifNumRemote)
+	} else if fixed < 0 {
+		// quick tier: later dimensions are only varied where an earlier one lets them matter;
+		// where they must be irrelevant they are set to the value that would do most damage
+		// if it were used (leader reachable and answering successfully)
+		local = verifChoice(verifName("local", i), verifNumLocal)
+		noForward = verifBool(verifName("noForward", i))
+		if (local == verifLocalNotLeader || local == verifLocalNotLeaderWrapped) && !noForward {
+			leaderKnown = verifChoice(verifName("leaderKnown", i), 3)
+			if leaderKnown == 0 {
+				remote = verifChoice(verifName("remote", i), verifNumRemote)
+			}
+		}
 	} else {
 		switch fixed {
 		case 0:
@@ -302,8 +316,20 @@ func verifOneRequest(p *Proxy, w *verifWorld, i int, op int, fixed int) {
 	p.SetAPIAddr(apiAddr)
 
 	// results
-	nl := verifChoice(verifName("nLocalResults", i), 3)
-	nr := verifChoice(verifName("nRemoteResults", i), 3)
+	nl, nr := 1, 2
+	if fixed < 0 && full && op <= 2 {
+		nl = verifChoice(verifName("nLocalResults", i), 3)
+		nr = verifChoice(verifName("nRemoteResults", i), 3)
+	} else if fixed < 0 && op <= 2 {
+		switch verifChoice(verifName("resultShape", i), 3) {
+		case 0:
+			nl, nr = 0, 1
+		case 1:
+			nl, nr = 1, 2
+		case 2:
+			nl, nr = 2, 0
+		}
+	}
 	w.lEQR, w.rEQR = verifMkEQR(nl), verifMkEQR(nr)
 	w.lRows, w.rRows = verifMkRows(nl), verifMkRows(nr)
 	w.lIdx, w.rIdx = verifU64(verifName("localIndex", i)), verifU64(verifName("remoteIndex", i))
@@ -316,7 +342,11 @@ func verifOneRequest(p *Proxy, w *verifWorld, i int, op int, fixed int) {
 	// caller's arguments
 	ctx := &verifCtx{tag: i}
 	var creds *clstrPB.Credentials
-	if verifBool(verifName("withCreds", i)) {
+	withCreds := (op+fixed+i)%2 == 0
+	if fixed < 0 {
+		withCreds = verifBool(verifName("withCreds", i))
+	}
+	if withCreds {
 		creds = &clstrPB.Credentials{Username: "alice", Password: "secret"}
 	}
 	timeout := time.Duration(verifI64(verifName("timeout", i)))
@@ -388,7 +418,8 @@ func verifOneRequest(p *Proxy, w *verifWorld, i int, op int, fixed int) {
 	}
 	verifAssert("C20-local-store-asked-once", nStore == 1)
 	if op == 6 {
-		verifAssert("C20-stepdown-local-args", w.sWait == wait && w.sID == id)
+		verifAssert("C20-stepdown-local-wait", w.sWait == wait)
+		verifAssert("C20-stepdown-local-id", w.sID == id)
 	} else {
 		verifAssert("C20-local-request-is-callers", w.sReq == req && w.sCtx == context.Context(ctx))
 	}
@@ -457,7 +488,8 @@ func verifOneRequest(p *Proxy, w *verifWorld, i int, op int, fixed int) {
 	if op == 6 {
 		sr := w.cStep
 		verifAssert("C20-stepdown-request-built", sr != nil)
-		verifAssert("C20-stepdown-request-carries-args", sr.Id == id && sr.Wait == wait)
+		verifAssert("C20-stepdown-request-carries-id", sr.Id == id)
+		verifAssert("C20-stepdown-request-carries-wait", sr.Wait == wait)
 	} else {
 		verifAssert("C20-forwarded-same-request", w.cReq == req)
 	}
